@@ -1,7 +1,7 @@
 """SchedExplorer (Python level): CHESS-style iterative preemption bounding over real threads.
 
 Threads are real `threading.Thread`s executed one at a time under a baton.  Scheduling points are
-(a) 'line' trace events inside the functions named in `points` (filename suffix, function name) and
+(a) 'line' trace events inside the functions named in `points` (filename suffix, function name or "*" for every function of the file) and
 (b) operations of `SchedRLock`, the scheduler-aware replacement for library locks.
 An *execution* is determined by its list of choices (index into the canonical enabled list at every
 point: the running thread first if still enabled, then ascending ids).  `explore()` enumerates all
@@ -70,8 +70,13 @@ class Execution:
 
 
 class Scheduler:
+    """One scheduling decision is taken at every point; the decision sequence of an execution is `choices`.
+    A thread that is told to continue (choice 0 while it is still enabled) simply goes on: control is handed to the
+    controller only when the decision is to switch, or when the thread blocks or ends - an execution with p points and
+    k switches costs k hand-offs, not p."""
+
     def __init__(self, points):
-        """points: set of (filename_suffix, funcname)"""
+        """points: set of (filename_suffix, funcname | "*")"""
         self.points_spec = points
         self._code_cache = {}
         self.reset([])
@@ -82,25 +87,51 @@ class Scheduler:
         self.ex = Execution()
         self.log = self.ex.log
         self.sems = {}
-        self.state = {}          # tid -> 'new' | 'ready' | 'blocked' | 'done'
+        self.state = {}          # tid -> 'ready' | 'blocked' | 'done'
         self.blocked_on = {}
-        self.running = None
         self.tids = {}
         self.ctl = threading.Semaphore(0)
-        self.step = 0
+        self.switch_to = None
 
     def current_tid(self):
         return self.tids.get(threading.get_ident())
 
+    def _decide(self, running):
+        """record one scheduling point and return the thread to run next (None: nothing enabled)"""
+        ex = self.ex
+        enabled = [t for t in sorted(self.state) if self.state[t] == "ready"]
+        if not enabled:
+            return None
+        running_enabled = running in enabled
+        order = ([running] if running_enabled else []) + [t for t in enabled if t != running]
+        i = len(ex.points)
+        if i < len(self.prefix):
+            c = self.prefix[i]
+            if c >= len(order):
+                raise ReplayDivergence("choice %d out of range (%d enabled) at point %d" % (c, len(order), i))
+        else:
+            c = 0
+        ex.points.append({"enabled": order, "running_enabled": running_enabled, "chosen": c})
+        ex.choices.append(c)
+        return order[c]
+
     # -- called from worker threads ------------------------------------------------
     def _yield(self, tid):
-        """give control to the scheduler and wait to be scheduled again"""
+        """give control to the controller and wait to be scheduled again"""
         self.ctl.release()
         self.sems[tid].acquire()
 
     def point(self, tid, why):
         if self.state.get(tid) != "ready":
             return
+        try:
+            nxt = self._decide(tid)
+        except ReplayDivergence as e:
+            self.ex.errors[tid] = "ReplayDivergence: %s" % e
+            nxt = tid
+        if nxt == tid:
+            return
+        self.switch_to = nxt
         self._yield(tid)
 
     def block(self, tid, lock):
@@ -118,7 +149,7 @@ class Scheduler:
         co = frame.f_code
         hit = self._code_cache.get(co)
         if hit is None:
-            hit = any(co.co_filename.endswith(fn) and co.co_name == name for fn, name in self.points_spec)
+            hit = any(co.co_filename.endswith(fn) and (name == "*" or co.co_name == name) for fn, name in self.points_spec)
             self._code_cache[co] = hit
         if not hit:
             return None
@@ -159,25 +190,19 @@ class Scheduler:
             t.start()
         running = None
         while True:
-            enabled = [t for t in sorted(self.state) if self.state[t] == "ready"]
-            if not enabled:
-                if any(s == "blocked" for s in self.state.values()):
-                    ex.deadlock = True
-                break
-            running_enabled = running in enabled
-            order = ([running] if running_enabled else []) + [t for t in enabled if t != running]
-            i = len(ex.points)
-            if i < len(self.prefix):
-                c = self.prefix[i]
-                if c >= len(order):
-                    raise ReplayDivergence("choice %d out of range (%d enabled) at point %d" % (c, len(order), i))
-            else:
-                c = 0
-            ex.points.append({"enabled": order, "running_enabled": running_enabled, "chosen": c})
-            ex.choices.append(c)
-            running = order[c]
+            if self.switch_to is not None:           # the running thread decided (at a point) to hand over
+                running, self.switch_to = self.switch_to, None
+            else:                                    # start, or the running thread ended or blocked
+                running = self._decide(running)
+                if running is None:
+                    if any(st == "blocked" for st in self.state.values()):
+                        ex.deadlock = True
+                    break
             self.sems[running].release()
-            self.ctl.acquire()               # wait until that thread yields / finishes / blocks
+            # wait until that thread hands over / finishes / blocks; a thread that never does is waiting on something the
+            # scheduler does not own (a real lock held by a parked thread) or loops for ever
+            if not self.ctl.acquire(timeout=300):
+                raise Deadlock("thread %d did not reach a scheduling point within 300 s (after %d points)" % (running, len(ex.points)))
         for t in threads:
             t.join(timeout=5)
         return ex
